@@ -4,9 +4,9 @@ CONSTANTS
   MRoutes = {"deepcopy", "clone2", "clone1", "tns_copy", "ctor", "copy", "clone0", "ctor_newns", "extract", "extract_ref"}
   MOps = {"SetLabel", "SetLength", "SetNodeLabel", "RelabelTaxon", "AddTaxon", "AddAnnotation", "ChangeAnnotation", "ChangeBoundAttr", "Encode", "Structural", "SetCell", "AddComment"}
   MClasses = {"Tree", "TreeList", "Matrix", "Namespace"}
-  MConfigs = {"default"}
+  MConfigs = {"default", "ns_locked"}
   MaxSteps = 1
   MaxCopies = 2
-  Bug = "no_preseed_taxa"
-INVARIANT EqualAfterCopy
+  Bug = "locked_ns_shared"
+INVARIANT SharingExactlyAsDocumented
 CHECK_DEADLOCK FALSE
